@@ -247,7 +247,18 @@ func (cs *ContractSet) loadFile(path, repo string) error {
 		case "ufun":
 			// ufun name(Sort, Sort) Sort
 			j := strings.Index(rest, "(")
-			k := strings.LastIndex(rest, ")")
+			k := -1
+			for d, i := 0, j; i >= 0 && i < len(rest); i++ {
+				if rest[i] == '(' {
+					d++
+				} else if rest[i] == ')' {
+					d--
+					if d == 0 {
+						k = i
+						break
+					}
+				}
+			}
 			if j < 0 || k < j {
 				return fail(fmt.Errorf("bad ufun declaration"))
 			}
@@ -258,7 +269,7 @@ func (cs *ContractSet) loadFile(path, repo string) error {
 				tail = strings.TrimSpace(tail[:i])
 			}
 			uf := &UFun{Name: strings.TrimSpace(rest[:j]), Ret: specSort(tail), SMT: smtName}
-			for _, a := range strings.Split(rest[j+1:k], ",") {
+			for _, a := range splitTop(rest[j+1 : k]) {
 				if a = strings.TrimSpace(a); a != "" {
 					uf.Args = append(uf.Args, specSort(a))
 				}
